@@ -24,6 +24,8 @@ def obligations(tier):
            module=H, func='e_store', timeout=1800, shards=16),
         Ob('E.store2', 'E', 'second name set: single-segment name, non-ASCII name, a name ending in .tmp', '9 x 7^3 = 3087', [L + 'list_files'], module=H,
            func='e_store2', timeout=1200, shards=4, known={'F11': _h.known_f11}),
+        Ob('E.race', 'E', 'local backend: while a reader is inside download_stream (any of its first 5 calls on the destination; real file or BytesIO) another client replaces the object (upload / upload_stream, shorter or longer) or deletes it: the reader gets the old or the new object in full',
+           '5 old x 5 new sizes x 5 positions x 3 actions x 2 destinations = 750', [L + 'download_stream', L + 'upload', L + 'upload_stream'], module=H, func='e_download_race', timeout=600),
         Ob('E.remote', 'E', 'S3-compatible and B2 adapters against fake services (httpx.MockTransport): == dict through exists/download/download_stream and list_files with listing pages of 1, 2, 1000 objects',
            '2 adapters x 3 page sizes x 7^4 action tuples (+3 fixed objects) = 14406', ['replicat.backends.s3c:S3Compatible.list_files', 'replicat.backends.s3c:S3Compatible.upload_stream',
             'replicat.backends.b2:B2.list_files', 'replicat.backends.b2:B2.delete', 'replicat.backends.b2:B2.upload_stream', 'replicat.backends.b2:B2.exists'],
